@@ -186,12 +186,13 @@ def table_o_shape(facts, rep, rule, w):
     if b is not None:
         bad = []
         for ct, _, bb in inter.ret_cases(b):
-            if inter.case_polarity(ct) == "ok":
-                continue
-            c = norm(ct)
-            kinds = [x[2] for x in walk(c) if x[0] == "agg" and x[1] == "error::VfsErrorKind"]
-            if kinds != ["NotSupported"]:
-                bad.append(fmt(c)[:60])
+            c0 = norm(ct)
+            for c in (c0[1] if c0[0] == "phi" else (c0,)):   # a `match` that feeds one return: look at each arm
+                if inter.case_polarity(c) == "ok":
+                    continue
+                kinds = [x[2] for x in walk(c) if x[0] == "agg" and x[1] == "error::VfsErrorKind"]
+                if kinds != ["NotSupported"]:
+                    bad.append(fmt(c)[:60])
         n += 1
         rep.ob(rule, b.id, "move_dir: a failed rename always falls back (NotSupported)", not bad, "" if not bad else
                "PhysicalFS::move_dir returns %s for some failures instead of NotSupported: the generic route (which the in-memory "
@@ -205,6 +206,31 @@ def table_o_shape(facts, rep, rule, w):
         rep.ob(rule, b.id, "read_dir: names are converted losslessly", not lossy, "" if not lossy else
                "a lossy conversion (to_string_lossy) is applied to entry names: a non-UTF-8 name is listed with U+FFFD and "
                "the listed path does not exist", lossy[0] if lossy else b.span)
+    # the setters hand the caller's SystemTime to filetime through its own conversion (FileTime::from): no hand-made
+    # seconds / nanoseconds arithmetic (which is where pre-epoch and sub-second values go wrong)
+    for op in ("set_modification_time", "set_access_time"):
+        b = ops.get(op)
+        if b is None:
+            continue
+        okc = False
+        shown = ""
+        for cb in inter.code_bodies(b):
+            trc = get_tracer(facts, cb)
+            for s_ in inter.sites(cb):
+                if s_.path.startswith("filetime::") and s_.short.split("::")[-1] in ("set_file_mtime", "set_file_atime", "set_file_times") and len(s_.args) >= 2:
+                    tv = norm(trc.operand(s_.args[1]))
+                    shown = fmt(tv)[:60]
+                    x = tv
+                    while x[0] in ("okval", "await"):
+                        x = x[1]
+                    if x[0] == "call" and x[1] in ("From::from", "Into::into", "FileTime::from_system_time", "FileTime::from") and x[2]:
+                        x = norm(x[2][0])
+                    # (norm() already erases From/Into: what is left must be the method's own time argument)
+                    okc = x[0] == "arg" and x[1] == 2
+        n += 1
+        rep.ob(rule, b.id, "%s: the time is converted with FileTime::from(time)" % op, okc, shown if okc else
+               "the value handed to filetime is %s, not FileTime::from(<the time argument>): a hand-made conversion does not round-trip "
+               "every SystemTime (pre-epoch, sub-second)" % (shown or "?"), b.span)
     # metadata reports the OS time stamps as std hands them out (Metadata::modified/created/accessed), unconverted
     b = ops.get("metadata")
     if b is not None:
@@ -269,6 +295,22 @@ def table_o_shape(facts, rep, rule, w):
                                             "fs::metadata", "Path::metadata", "Path::is_dir", "Metadata::is_dir", "fs::symlink_metadata"):
                                         by_stat = True
                         kinds[v] = (by_stat and has_is_dir, st.line)
+        # the probe only classifies: if it fails itself (dangling symlink, occupant removed meanwhile) the answer is still an
+        # "exists" kind, never the probe's own error
+        escaping = []
+        for cb in inter.code_bodies(b):
+            trc = get_tracer(facts, cb)
+            stat_sites = {(cb.id, s_.bb) for s_ in inter.sites(cb) if EFFECTS.get(s_.short) in ("stat", "lstat")}
+            for blk in cb.blocks:
+                t = blk.term
+                if t.kind == "call" and short(t.callee() or "") == "Try::branch" and t.args:
+                    x = trc.operand(t.args[0])
+                    if any(y[0] == "call" and len(y) > 3 and y[3] in stat_sites for y in walk(x)):
+                        escaping.append(t.line)
+        n += 1
+        rep.ob(rule, b.id, "create_dir: a failing occupant probe does not replace the exists-kind", not escaping, "" if not escaping else
+               "the stat that classifies AlreadyExists is propagated with `?`: a dangling symlink (or an occupant removed in between) makes "
+               "create_dir return the probe's error instead of FileExists / DirectoryExists", escaping[0] if escaping else b.span)
         for v in ("DirectoryExists", "FileExists"):
             ok = v in kinds and kinds[v][0]
             n += 1
